@@ -2,6 +2,9 @@ module verif/harness
 
 go 1.14
 
-require github.com/skycoin/skycoin v0.0.0
+require (
+	github.com/boltdb/bolt v1.3.1
+	github.com/skycoin/skycoin v0.0.0
+)
 
 replace github.com/skycoin/skycoin => /repo
